@@ -190,6 +190,15 @@ func (cell c13cell) config(variant int) *cfg.Config {
 		conf.Services = append(conf.Services, cfg.Service{Name: "vbad", Type: cfg.P(pkg + ".Obj"), Getter: cfg.P("GetVBad"), MustGetter: tri(cell.must),
 			Fields: []cfg.KV{{K: "F1", V: cfg.Str("@bad")}}})
 	}
+	if cell.getter && (cell.typ == "ptr" || cell.typ == "val") {
+		// a getter whose declared type the object can not be converted to: all four accessors have to report it
+		other := []string{`"fixt/pb"`, "pa", `"."`, "fixt/deep/pa"}[variant%4]
+		mis := cfg.Service{Name: "mis", Constructor: cfg.P(pkg + ".New"), Getter: cfg.P("ObtainMis"), MustGetter: tri(cell.must), Type: cfg.P("*" + other + ".Obj")}
+		if cell.typ == "val" {
+			mis.Type = cfg.P(pkg + ".Obj") // the constructor returns a pointer
+		}
+		conf.Services = append(conf.Services, mis)
+	}
 	return conf
 }
 
@@ -220,6 +229,7 @@ func checkC13(c *Ctx) error {
 							{Op: "getterctx", Name: "MustGetSvcInContext", Ctx: 2}, {Op: "getterctx", Name: "GetSvcInContext", Ctx: 2}, {Op: "getctx", Name: "svc", Ctx: 2}, {Op: "getter", Name: "GetSvc"},
 							{Op: "getter", Name: "FetchBad"}, {Op: "getterctx", Name: "FetchBadInContext", Ctx: 2}, {Op: "getter", Name: "MustFetchBad"}, {Op: "getterctx", Name: "MustFetchBadInContext", Ctx: 2},
 							{Op: "getter", Name: "GetVBad"}, {Op: "getter", Name: "MustGetVBad"},
+							{Op: "getter", Name: "ObtainMis"}, {Op: "getterctx", Name: "ObtainMisInContext", Ctx: 1}, {Op: "getter", Name: "MustObtainMis"}, {Op: "getterctx", Name: "MustObtainMisInContext", Ctx: 2}, {Op: "get", Name: "mis"},
 							{Op: "getter", Name: "GetPlain"}, {Op: "getter", Name: "Getplain"}, {Op: "get", Name: "plain"}}
 						units = append(units, &probe.Unit{ID: idOf(i), Cfg: conf, Files: []probe.File{{Name: "gontainer.yaml", Content: conf.YAML()}}, Ops: ops})
 						cells = append(cells, cell)
